@@ -1417,7 +1417,9 @@ Fixpoint pea_scan (fuel : nat) (contents : bytes) (i : nat) (bo : Z)
   end.
 
 (* process_email_autolinks on (text, sourcepos, spx): the new text and sourcepos of the node, and the nodes
-   inserted after it (Link, Text, Link, Text ..) *)
+   inserted after it (Link, Text, Link, Text ..).  Since fix 89410a4 the Rust function is a loop over the
+   original text (start offset, last link); this recursion on the remaining text is its functional reading:
+   one unfolding = one iteration, `rem` = contents_str[start..], `asp` = the loop variable sp. *)
 Fixpoint pea (fuel : nat) (contents : bytes) (sp : sourcepos) (spx : list piece)
   : res (bytes * sourcepos * list piece * list node) :=
   match fuel with
